@@ -1,5 +1,177 @@
-/- Engine `path` (C18): not built yet. -/
+/-
+  Engine `path` (C18).  Op lines (extra trailing tokens are ignored; they carry what
+  only the oracle needs):
+    C <mem-hex>                                       collapsePath on that memory block
+    A <tree> <path-hex>                               Ports::apropos
+    I <tree> <key-hex>                                Ports::operator[]
+    S <tree> <str-hex> <needle-hex|N> <opt 0|1|2> <query 0|1> <max_ports> <bufsize>
+                                                      both path_search overloads
+  <tree> ::= '[' [ port { ',' port } ] ']'      port ::= <name-hex> ';' <meta> ';' ( '0' | <tree> )
+  <meta> ::= 'N' (NULL) | <block-hex>
+  Output lines:
+    C <offset> <string-hex>            | C oob
+    A <i.j.k> | A NULL | A oob | A unsupported        (same for I with a single index)
+    S <array overload> | <message overload>
+      array overload:   T=<types> A=<args>            | overflow | oob | unsupported
+      message overload: M=<len> D=<addr-hex>/<types>/<args> X=<raw-hex or ->   | M=0 | overflow | …
+      <args> = comma separated `s:<hex>`, `b:N` (NULL data), `b:<hex>`; in the two sorted
+      modes the blobs inside a run of equal names are printed in sorted order (std::sort
+      is not stable) and the raw bytes only when all names are distinct.
+-/
+import RtoscModel.Path.Search
 import Driver.Common
 namespace Driver.PathEngine
-def engine : Driver.Engine := Driver.stateless (fun _ => "unimplemented")
+open Rtosc Rtosc.Path
+
+def trunc (b : Bytes) : Bytes := b.takeWhile (· ≠ 0)
+
+/-! tree parser -/
+abbrev P := List Char
+
+def takeTok (stop : Char → Bool) : P → String × P
+  | cs => (String.ofList (cs.takeWhile (fun c => !stop c)), cs.dropWhile (fun c => !stop c))
+
+mutual
+partial def parsePorts : P → Option (List PortT × P)
+  | '[' :: ']' :: r => some ([], r)
+  | '[' :: r => parsePortList r []
+  | _ => none
+partial def parsePortList (cs : P) (acc : List PortT) : Option (List PortT × P) :=
+  match parsePort cs with
+  | none => none
+  | some (p, ',' :: r) => parsePortList r (p :: acc)
+  | some (p, ']' :: r) => some ((p :: acc).reverse, r)
+  | _ => none
+partial def parsePort (cs : P) : Option (PortT × P) :=
+  let (n, r1) := takeTok (· == ';') cs
+  match ofHex n, r1 with
+  | some name, ';' :: r2 =>
+    let (m, r3) := takeTok (· == ';') r2
+    let md : Option (Option Bytes) := if m == "N" then some none else (ofHex m).map some
+    match md, r3 with
+    | some md, ';' :: '0' :: r4 => some (.mk (trunc name) md false [], r4)
+    | some md, ';' :: r4 =>
+      match parsePorts r4 with
+      | some (cs', r5) => some (.mk (trunc name) md true cs', r5)
+      | none => none
+    | _, _ => none
+  | _, _ => none
+end
+
+def parseTree (s : String) : Option (List PortT) :=
+  match parsePorts s.toList with
+  | some (t, []) => some t
+  | _ => none
+
+def showIx (ix : List Nat) : String := ".".intercalate (ix.map toString)
+
+def showLook : Look → String
+  | .null => "NULL"
+  | .oob => "oob"
+  | .unsupported => "unsupported"
+  | .port ix => showIx ix
+
+def ascii (b : Bytes) : String :=
+  if b.isEmpty then "-" else String.ofList (b.map fun c => Char.ofNat c.toNat)
+
+/-- printed form of the arguments, split into (query strings, pairs) -/
+def splitArgs (query : Bool) (args : List String) : List String × List String :=
+  if query then (args.take 2, args.drop 2) else ([], args)
+
+def insertStr (x : String) : List String → List String
+  | [] => [x]
+  | y :: r => if x ≤ y then x :: y :: r else y :: insertStr x r
+
+def sortStr (l : List String) : List String := l.foldr insertStr []
+
+/-- pairs (name, blob) as printed strings; blobs inside runs of equal names sorted -/
+partial def canonRuns : List (String × String) → List (String × String)
+  | [] => []
+  | (n, b) :: rest =>
+    let run := rest.takeWhile (·.1 == n)
+    let after := rest.dropWhile (·.1 == n)
+    (sortStr (b :: run.map (·.2))).map (fun x => (n, x)) ++ canonRuns after
+
+def toPairs : List String → List (String × String)
+  | a :: b :: r => (a, b) :: toPairs r
+  | _ => []
+
+def canonArgs (canon : Bool) (query : Bool) (args : List String) : List String :=
+  let (q, ps) := splitArgs query args
+  let pairs := toPairs ps
+  let pairs := if canon then canonRuns pairs else pairs
+  q ++ (pairs.map fun (a, b) => [a, b]).flatten
+
+def distinctNames (query : Bool) (args : List String) : Bool :=
+  let names := (toPairs (splitArgs query args).2).map (·.1)
+  names.eraseDups.length == names.length
+
+def showArg : Arg → String
+  | .s v => "s:" ++ toHex v
+  | .b ⟨none, _⟩ => "b:N"
+  | .b ⟨some d, len⟩ => "b:" ++ toHex (d.take len)
+
+def showDec : Bytes ⊕ Bytes → String
+  | .inl v => "s:" ++ toHex v
+  | .inr v => "b:" ++ toHex v
+
+def joinArgs (l : List String) : String := if l.isEmpty then "-" else ",".intercalate l
+
+def stepC (mem : Bytes) : String :=
+  match collapseStr mem with
+  | none => "C oob"
+  | some (off, s) => s!"C {off} {toHex s}"
+
+def parseOpt : String → Option Opts
+  | "0" => some .unmodified
+  | "1" => some .sorted
+  | "2" => some .sortedUniquePrefix
+  | _ => none
+
+def stepS (tree : List PortT) (str : Bytes) (needle : Option Bytes) (opt : Opts) (query : Bool)
+    (maxPorts bufsize : Nat) : String :=
+  let canon := opt != .unmodified
+  let a := match pathSearch mergeSorter tree str needle (2 * maxPorts + 1) (2 * maxPorts) opt query with
+    | .overflow => "overflow"
+    | .oob => "oob"
+    | .unsupported => "unsupported"
+    | .ok types args => s!"T={ascii types} A={joinArgs (canonArgs canon query (args.map showArg))}"
+  let m := match pathSearchMsg mergeSorter tree str (needle.getD []) maxPorts bufsize opt query with
+    | .overflow => "overflow"
+    | .oob => "oob"
+    | .unsupported => "unsupported"
+    | .tooSmall => "M=0"
+    | .ok msg =>
+      match decodeMsg msg with
+      | none => s!"M={msg.length} undecodable X={toHex msg}"
+      | some (addr, types, args) =>
+        let printed := args.map showDec
+        let raw := if !canon || distinctNames query printed then toHex msg else "-"
+        s!"M={msg.length} D={toHex addr}/{ascii types}/{joinArgs (canonArgs canon query printed)} X={raw}"
+  s!"S {a} | {m}"
+
+def step (line : String) : String :=
+  match words line with
+  | "C" :: m :: _ =>
+    match ofHex m with
+    | some mem => stepC mem
+    | none => "bad-op"
+  | "A" :: t :: p :: _ =>
+    match parseTree t, ofHex p with
+    | some tree, some path => "A " ++ showLook (apropos tree (trunc path))
+    | _, _ => "bad-op"
+  | "I" :: t :: k :: _ =>
+    match parseTree t, ofHex k with
+    | some tree, some key =>
+      "I " ++ (match index tree (trunc key) with | none => "NULL" | some i => toString i)
+    | _, _ => "bad-op"
+  | "S" :: t :: s :: n :: o :: q :: mp :: bs :: _ =>
+    let needle : Option (Option Bytes) := if n == "N" then some none else (ofHex n).map (some ∘ trunc)
+    match parseTree t, ofHex s, needle, parseOpt o, mp.toNat?, bs.toNat? with
+    | some tree, some str, some needle, some opt, some maxPorts, some bufsize =>
+      stepS tree (trunc str) needle opt (q == "1") maxPorts bufsize
+    | _, _, _, _, _, _ => "bad-op"
+  | _ => "bad-op"
+
+def engine : Driver.Engine := Driver.stateless step
 end Driver.PathEngine
